@@ -166,8 +166,8 @@ impl Prop for C15 {
             Tier::Tiny => 50,
         }
     }
-    fn required_probes(&self) -> Vec<&'static str> {
-        vec![
+    fn required_probes(&self) -> Vec<String> {
+        let v: Vec<&str> = vec![
             "bit_toggled_twice_between_reads",
             "both_filters_set_on_a_bit",
             "bit15_written",
@@ -177,7 +177,8 @@ impl Prop for C15 {
             "condition_change_inside_message",
             "preset_executed",
             "cls_with_pending_event",
-        ]
+        ];
+        v.into_iter().map(String::from).collect()
     }
 
     fn gen(&self, seed: u64, run: u64, _tier: Tier) -> Trace {
